@@ -140,8 +140,10 @@ def build_tree(root, rng, gen):
     # decoys in excluded directories (content that would raise errors if it took part)
     for d in rng.sample(EXCLUDE, rng.randrange(1, 4)):
         put(f"{d}/sub-01/eeg/sub-01_task-A_events.tsv", "onset\tduration\tHED\n1.0\t0.5\tZznotatag-decoy\n")
-        put(f"{d}/task-A_events.json", {"trial_type": {"HED": {"go": "Zznotatag-decoy"}}})
+        # (one sidecar per directory: two applicable ones at one level are not a legal tree once the directory takes part)
         if rng.random() < 0.5:
+            put(f"{d}/task-A_events.json", {"trial_type": {"HED": {"go": "Zznotatag-decoy"}}})
+        else:
             put(f"{d}/events.json", {"response": {"HED": {"left": "Zznotatag-decoy, (("}}})
     if rng.random() < 0.3:     # an excluded directory name deeper in the tree
         put("sub-01/derivatives/sub-01_task-A_events.tsv", "onset\tduration\tHED\n1.0\t0.5\tZznotatag-decoy\n")
@@ -164,7 +166,7 @@ def issue_key(i):
             str(i.get("ec_sidecarColumnName")), str(i.get("ec_sidecarKeyName")))
 
 
-def expected_issues(root, schema, check_for_warnings):
+def expected_issues(root, schema, check_for_warnings, EXCLUDE=EXCLUDE):        # noqa (default: the package's default)
     from hed.models.sidecar import Sidecar
     from hed.models.tabular_input import TabularInput
     from hed.errors.error_reporter import ErrorHandler
@@ -234,6 +236,23 @@ def _check(root, case, rec, schema, BidsDataset):
             rec.violation("merged sidecar of an events file differs from the top-down merge of its applicable sidecars",
                           dict(case, file=os.path.relpath(f, root), chain=[os.path.relpath(c, root) for c in chain]), key=key)
     case["_multi"] = multi
+    # the caller's own exclusion list, including an empty one (nothing excluded)
+    for excl in ([], ["derivatives"]):
+        rec.mon("explicit-exclusion-list")
+        try:
+            ds2 = BidsDataset(root, schema=schema, exclude_dirs=list(excl))
+            g2 = ds2.get_tabular_group("events")
+            got2 = ds2.validate(check_for_warnings=False)
+            want2 = expected_issues(root, schema, False, excl)
+        except Exception as ex:  # noqa
+            rec.violation(f"dataset with an explicit exclusion list raised {type(ex).__name__}", dict(case, exclude=excl))
+            continue
+        if sorted(g2.datafile_dict) != sorted(os.path.realpath(p) for p in bids_oracle.data_files(root, "events", ".tsv", excl)):
+            rec.violation("with an explicit exclusion list the set of events files is not the files outside those directories",
+                          dict(case, exclude=excl))
+        elif sorted(issue_key(i) for i in got2) != sorted(issue_key(i) for i in want2):
+            rec.violation("with an explicit exclusion list the dataset issues differ from the union over the files that take part",
+                          dict(case, exclude=excl), key="sidecar-chain-of-deepest" if multi else None)
     for warn in (True, False):
         rec.mon("dataset-issues-equal-union")
         try:
